@@ -6,6 +6,8 @@ import Stevia.Proofs.TreeState
 import Stevia.Proofs.ArraySetState
 import Stevia.Proofs.ExecInv
 import Stevia.Generated.Facts
+import Stevia.Proofs.GenTreeBal32
+import Stevia.Proofs.GenTreeBal8
 
 namespace Stevia.C06
 open Stevia
@@ -104,5 +106,33 @@ theorem source_rebalance_conditions_are_the_models (l r ll lr rl rr : Nat) :
 
 /-- Non-vacuity: the Fibonacci tree of height 4 is balanced with 7 nodes. -/
 example : (fibT 4).Bal ∧ (fibT 4).size = 7 := ⟨(fibT_spec 4).1, by decide⟩
+
+/-! ### Tie through the translator: the rebalancing code of the source is the literal model's -/
+
+/-- `avl_tree.rs`: the translated `balance_factor`, rotations, `update_child`/`update_height` and the bottom-up `rebalance`
+    loop are the literal model's (whose effect on a represented tree is `T.rebal` along the path,
+    `Proofs/TreeImpLoop.rebalance_loop`). -/
+theorem translated_rebalance_u32 (d : Rec α β) (m : TreeImage α β) :
+    (∀ path, Gen32.rebalance d m path = Imp.rebalance d m path) ∧
+    (∀ l r, Gen32.balance_factor d m l r = Imp.balanceFactor d m l r) ∧
+    (∀ i, Gen32.left_rotate d m i = Imp.leftRotate d m i) ∧
+    (∀ i, Gen32.right_rotate d m i = Imp.rightRotate d m i) ∧
+    (∀ p b ch, Gen32.update_child d m p b ch = Imp.updateChild d m p b ch) ∧
+    (∀ i, Gen32.update_height d m i = Imp.updateHeight d m i) :=
+  ⟨Gen32.rebalance_eq d m, Gen32.balance_factor_eq d m, Gen32.left_rotate_eq d m, Gen32.right_rotate_eq d m,
+   Gen32.update_child_eq d m, Gen32.update_height_eq d m⟩
+
+/-- `u8_avl_tree.rs`: the translated `balance_factor`, rotations, `update_child`/`update_height` and the bottom-up `rebalance`
+    loop are the literal model's (whose effect on a represented tree is `T.rebal` along the path,
+    `Proofs/TreeImpLoop.rebalance_loop`). -/
+theorem translated_rebalance_u8 (d : Rec α β) (m : TreeImage α β) :
+    (∀ path, Gen8.rebalance d m path = Imp.rebalance d m path) ∧
+    (∀ l r, Gen8.balance_factor d m l r = Imp.balanceFactor d m l r) ∧
+    (∀ i, Gen8.left_rotate d m i = Imp.leftRotate d m i) ∧
+    (∀ i, Gen8.right_rotate d m i = Imp.rightRotate d m i) ∧
+    (∀ p b ch, Gen8.update_child d m p b ch = Imp.updateChild d m p b ch) ∧
+    (∀ i, Gen8.update_height d m i = Imp.updateHeight d m i) :=
+  ⟨Gen8.rebalance_eq d m, Gen8.balance_factor_eq d m, Gen8.left_rotate_eq d m, Gen8.right_rotate_eq d m,
+   Gen8.update_child_eq d m, Gen8.update_height_eq d m⟩
 
 end Stevia.C06
